@@ -91,6 +91,17 @@ PROPS = {
         "trusted": ["encoding/binary, sort.Strings, fmt %d re-implemented at byte level in the model and diffed against the real ones"],
         "assumptions": [],
     },
+    "C19": {
+        "lean": ["GldapModel.Props.C19"],
+        "audit": "GldapModel/Audit/C19.lean",
+        "inventory": ["td.Directory.handleBind", "Entry.GetAttributeValues", "Request.GetSimpleBindMessage", "Request.NewBindResponse",
+                      "td.Directory.SetAllowAnonymousBind", "td.Directory.SetUsers"],
+        "streams": [
+            {"stream": "tdbind", "n_quick": 20000, "n_thorough": 300000},
+        ],
+        "trusted": BER_TRUST,
+        "assumptions": ["plain / TLS / StartTLS transports deliver the same bind request to the handler (C13, C18); this check drives the handler in-process through the directory's own mux"],
+    },
     "C14": {
         "lean": ["GldapModel.Props.C14"],
         "audit": "GldapModel/Audit/C14.lean",
